@@ -151,6 +151,7 @@ class Engine:
         self.axiom_instances = 0
         self.depth = 0
         self.stats = {'paths': 0, 'pruned': 0}
+        self.lemmas_used = set()
 
     # ------------------------------------------------------------ lookup
     def func(self, mangled):
@@ -780,6 +781,23 @@ class Engine:
                 self.depth -= 1
         return r
 
+    def use_lemma(self, c, st, bound=None):
+        lm = self.db.lemmas.get(c.name)
+        if lm is None: raise E2Error('unknown lemma %s' % c.name)
+        self.lemmas_used.add(c.name)
+        args = [self.sv(a, st, bound) for a in c.args]
+        if len(args) != len(lm.params): raise E2Error('lemma %s arity' % c.name)
+        s2 = st.clone(); s2.env = {}; s2.scope = None; s2.ghost = {}
+        for (t, n), a in zip(lm.params, args):
+            if t == 'real' and not isinstance(a, Seq): a = self.to_real(a)
+            s2.env[n] = a
+        for cl in lm.requires:
+            for cj in self.clause_conjuncts(cl.expr):
+                for v in self.clause_vals(cj, s2):
+                    self.oblige(s2, v, 'lemma.requires', 'use %s: %s' % (c.name, SP.show(cj)))
+        for cl in lm.ensures:
+            for v in self.clause_vals(cl.expr, s2): st.assume(v)
+
     def clause_conjuncts(self, x):
         if x.k == 'bin' and x.op == '&&':
             return self.clause_conjuncts(x.l) + self.clause_conjuncts(x.r)
@@ -1370,6 +1388,7 @@ class Verifier(Engine):
         for inv in ls.invariants:
             if inv.engines and 'E2' not in inv.engines: continue
             self.assume_clause(inv.expr, h)
+        for u in ls.uses: self.use_lemma(u, h)
         c = self.ev(L.cond, h)
         out = []
         ex = h.clone(); ex.assume(z3.Not(c)); ex.scope = saved_scope; ex.loop_old = saved_lo
@@ -1453,6 +1472,7 @@ class Verifier(Engine):
             if fs.exits_iff is not None:
                 V = self.sv(fs.exits_iff.expr, st)
                 st.assume(z3.Not(V) if mode == 'accept' else V)
+            for u in fs.uses: self.use_lemma(u, st)
             st.old = dict(st.env)
             self.entry_dec = self.sv(fs.decreases.expr, st) if fs.decreases is not None else None
             self.vacuity.append((self.prefix, list(st.pc)))
@@ -1517,10 +1537,28 @@ class Verifier(Engine):
         self.mode = 'accept'; self.cur = None
         st = State()
         for t, n in lm.params:
-            tt = {'real': 'double', 'int': 'int', 'nat': 'int', 'bool': 'bool'}.get(t, t)
+            tt = {'real': 'double', 'int': 'int', 'nat': 'int', 'bool': 'bool', 'seq': 'seq<double>', 'seq2': 'seq<seq<double>>'}.get(t, t)
             st.env[n] = self.fresh_val(tt, n, st, constrain=False)
             if t == 'nat': st.assume(st.env[n] >= 0)
         for cl in lm.requires: self.assume_clause(cl.expr, st)
+        if 'induction' in lm.options:
+            v, lbx = lm.options['induction']
+            lb = self.sv(lbx, st)
+            # well-foundedness: the preconditions bound the induction variable from below
+            self.oblige(st, st.env[v] >= lb, 'induction.bound', 'requires imply %s >= %s' % (v, SP.show(lbx)))
+            s2 = st.clone(); s2.env = dict(st.env); s2.env[v] = st.env[v] - 1
+            pre = []
+            for cl in lm.requires:
+                if v in SP.names_in(cl.expr):
+                    for c in self.clause_vals(cl.expr, s2):
+                        if isinstance(c, Quant): raise E2Error('lemma %s: quantified precondition mentions the induction variable' % name)
+                        pre.append(c)
+            post = []
+            for cl in lm.ensures:
+                for c in self.clause_vals(cl.expr, s2):
+                    if isinstance(c, Quant): raise E2Error('lemma %s: quantified conclusion in induction hypothesis' % name)
+                    post.append(c)
+            st.assume(z3.Implies(z3.And(*(pre + [st.env[v] - 1 >= lb])), z3.And(*post)))
         self.vacuity = getattr(self, 'vacuity', [])
         self.vacuity.append((self.prefix, list(st.pc)))
         for cl in lm.ensures: self.check_clause(cl, st, 'ensures')
